@@ -264,6 +264,38 @@ impl Driver {
                 d.sets.extend(subsets(&u2, q(2, 4)));
                 d.n = d.sets.len();
             }
+            // character classes: runs of consecutive code points around every character that needs
+            // escaping somewhere (regex metacharacters, class metacharacters, control characters)
+            "char-classes" => {
+                let specials: Vec<u32> = "()[]{}+*-.?|^$\\#&~ \t\n\r\u{b}\u{c}\u{1b}\u{7f}\u{a0}\u{ad}\u{2028}\u{d7ff}\u{e000}\u{ffff}\u{10000}\u{10ffff}"
+                    .chars()
+                    .map(|c| c as u32)
+                    .collect();
+                for &m in &specials {
+                    for len in 2..=5u32 {
+                        for off in 0..len {
+                            let start = m.saturating_sub(off);
+                            let set: Vec<String> = (start..start + len)
+                                .filter_map(char::from_u32)
+                                .map(|c| c.to_string())
+                                .collect();
+                            if set.len() == len as usize {
+                                d.sets.push(set.clone());
+                                // the same run behind a common prefix and with a gap
+                                d.sets.push(set.iter().map(|c| format!("x{}", c)).collect());
+                                if len >= 4 {
+                                    let mut gap = set.clone();
+                                    gap.remove(2);
+                                    d.sets.push(gap);
+                                }
+                            }
+                        }
+                    }
+                }
+                d.sets.sort();
+                d.sets.dedup();
+                d.n = d.sets.len();
+            }
             "adversarial" => d.n = q(1500, 30000),
             "near-miss" => d.n = q(1500, 25000),
             "classes" => d.n = q(1200, 20000),
@@ -350,6 +382,15 @@ impl Driver {
                     shuffled.push(tcs[0].clone());
                 }
                 runs.push(run(base.clone(), &shuffled));
+                mk(tcs, runs)
+            }
+            "char-classes" => {
+                let tcs = self.sets[i].clone();
+                let mut runs = vec![run(base.clone(), &tcs)];
+                for f in ["verbose", "capture", "escape", "icase", "nostart"] {
+                    runs.push(run(base.with(f, true), &tcs));
+                }
+                runs.push(run(base.with("verbose", true).with("escape", true), &tcs));
                 mk(tcs, runs)
             }
             "small-default" => {
